@@ -426,6 +426,35 @@ func main() {
 		fail("only %d ToPURL methods found under the listed extractor packages (the layout changed)", nToPURL)
 	}
 
+	// 2b. binary/proto: the metadata types setProtoMetadata's type switch knows, as "<import path>.<Type>"
+	var protoMeta []string
+	pb := load("binary/proto")
+	for _, fd := range pb.funcs["setProtoMetadata"] {
+		f := fileOf(pb, fd)
+		ast.Inspect(fd.Body, func(n ast.Node) bool {
+			cc, ok := n.(*ast.CaseClause)
+			if !ok {
+				return true
+			}
+			for _, e := range cc.List {
+				star := ""
+				if st, ok := e.(*ast.StarExpr); ok {
+					e = st.X
+					star = "*"
+				}
+				if se, ok := e.(*ast.SelectorExpr); ok {
+					if id, ok := se.X.(*ast.Ident); ok {
+						if path, ok := pb.imports[f][id.Name]; ok {
+							protoMeta = append(protoMeta, star+path+"."+se.Sel.Name)
+						}
+					}
+				}
+			}
+			return true
+		})
+	}
+	sort.Strings(protoMeta)
+
 	// 3. write
 	var w strings.Builder
 	w.WriteString("-- GENERATED by /verif/translator/cmd/purldump from /repo's working tree on every run of ./check C14.\n")
@@ -504,6 +533,7 @@ func main() {
 	strList("extractorPackages", "extractor packages imported by the two extractor list.go files", rels)
 	strList("nilOnly", "packages whose ToPURL methods only ever return nil", nilOnly)
 	strList("noToPURL", "listed packages without a ToPURL method of their own", noToPURL)
+	strList("protoMetaTypes", "metadata types (\"*\" for a pointer, import path, \".\", type name) that binary/proto.setProtoMetadata's type switch converts; any other metadata leaves the proto `metadata` oneof unset", protoMeta)
 	fmt.Fprintf(&w, "def toPurlMethods : Nat := %d\n\nend Scalibr.Gen.Purl\n", nToPURL)
 	if err := os.MkdirAll(filepath.Dir(*out), 0o755); err != nil {
 		fail("%v", err)
@@ -518,6 +548,6 @@ func main() {
 	if !tableFound {
 		fmt.Printf("purldump: VALIDTYPE-TABLE-NOT-FOUND: %s\n", tableProblem)
 	}
-	fmt.Printf("purldump: type constants=%d valid types=%d extractor packages=%d ToPURL methods=%d emitted rows=%d distinct emitted types=%d dynamic=%d unresolved=%d nil-only=%d\n",
-		len(cn), len(validTypes), len(rels), nToPURL, len(rows), len(ptypes), len(a.dynamic), len(a.unresolved), len(nilOnly))
+	fmt.Printf("purldump: type constants=%d valid types=%d extractor packages=%d ToPURL methods=%d emitted rows=%d distinct emitted types=%d dynamic=%d unresolved=%d nil-only=%d proto-metadata-types=%d\n",
+		len(cn), len(validTypes), len(rels), nToPURL, len(rows), len(ptypes), len(a.dynamic), len(a.unresolved), len(nilOnly), len(protoMeta))
 }
